@@ -2,9 +2,11 @@ package metax
 
 import (
 	"fmt"
+	"math"
 	"reflect"
 	"sort"
 	"strings"
+	"time"
 
 	"github.com/hashicorp/raft"
 	metasrv "github.com/openGemini/openGemini/app/ts-meta/meta"
@@ -201,4 +203,25 @@ func (in *Inst) DumpCatalogue() *Node {
 		out.Fields = append(out.Fields, f)
 	}
 	return out
+}
+
+// StartBeforeInt64Range: some shard group or index group starts before the earliest instant an
+// int64 nanosecond count can express - its UnixNano, and therefore its snapshot form, wraps.
+func (in *Inst) StartBeforeInt64Range() bool {
+	min := time.Unix(0, math.MinInt64)
+	for _, db := range in.Data().Databases {
+		for _, rp := range db.RetentionPolicies {
+			for i := range rp.ShardGroups {
+				if rp.ShardGroups[i].StartTime.Before(min) {
+					return true
+				}
+			}
+			for i := range rp.IndexGroups {
+				if rp.IndexGroups[i].StartTime.Before(min) {
+					return true
+				}
+			}
+		}
+	}
+	return false
 }
